@@ -37,10 +37,18 @@ func (c *DiffCommand) Execute(_ []string) error {
 
 	c.printInfo()
 
-	var (
-		output io.WriteCloser
-		err    error
-	)
+	diffs, err := c.getDiffs()
+	if err != nil {
+		return err
+	}
+
+	ignores, err := c.readIgnores()
+	if err != nil {
+		return err
+	}
+
+	// the destination is opened once the inputs have been read: it may be the ignore file itself
+	var output io.WriteCloser
 	if c.Destination != "stdout" {
 		output, err = os.OpenFile(c.Destination, os.O_CREATE|os.O_TRUNC|os.O_WRONLY, 0600)
 		if err != nil {
@@ -51,16 +59,6 @@ func (c *DiffCommand) Execute(_ []string) error {
 		}()
 	} else {
 		output = os.Stdout
-	}
-
-	diffs, err := c.getDiffs()
-	if err != nil {
-		return err
-	}
-
-	ignores, err := c.readIgnores()
-	if err != nil {
-		return err
 	}
 
 	diffs = diffs.FilterIgnores(ignores)
